@@ -21,7 +21,7 @@ import (
 
 // c19Case: a workload, a state in which Close is issued, and what follows.
 type c19Case struct {
-	// Point: idle | inflight | zk | meta | dial | probe | backoff | dialrefused
+	// Point: idle | inflight | zk | meta | dial | probe | backoff | dialrefused | zkerror | multistop
 	Point   string   `json:"point"`
 	Warm    bool     `json:"warm"`            // run a few calls to completion first (connections exist)
 	Callers []opSpec `json:"callers"`         // one call per concurrent caller, in flight at Close
@@ -162,13 +162,29 @@ func c19RunInBubble(c c19Case) (out Outcome) {
 	case "dialrefused":
 		cl.SetServer("rs2:16020", func(s *sim.ServerState) { s.Down = true })
 		cl.SetServer("rs3:16020", func(s *sim.ServerState) { s.Down = true })
+	case "zkerror":
+		// ZooKeeper answers every lookup with an error, before and after Close (quorum unreachable)
+		cl.Lock()
+		for k := 0; k < 3000; k++ {
+			cl.ZKErrs = append(cl.ZKErrs, errors.New("zk: could not connect to a server"))
+		}
+		cl.Unlock()
+	case "multistop":
+		// every region answers the next multi-request that addresses it with a region-level
+		// RegionServerStoppedException (the connection stays up): the client gives that connection up,
+		// gets itself another one, and the calls succeed there - all of that before Close
+		cl.Lock()
+		for _, r := range cl.Regions {
+			r.MultiExc = append(r.MultiExc, sim.Exc{Class: sim.RSStopped, Stack: sim.RSStopped + ": Server is stopping"})
+		}
+		cl.Unlock()
 	}
-	if (c.Point == "zk" || c.Point == "meta" || c.Point == "dial" || c.Point == "probe" || c.Point == "dialrefused") && c.Warm {
+	if (c.Point == "zkerror" || c.Point == "zk" || c.Point == "meta" || c.Point == "dial" || c.Point == "probe" || c.Point == "dialrefused") && c.Warm {
 		// the warm connections would serve the calls without any lookup; kill them so that
 		// the calls have to go through establishment again
 		cl.KillConns("rs2:16020")
 		cl.KillConns("rs3:16020")
-		if c.Point == "zk" || c.Point == "meta" {
+		if c.Point == "zk" || c.Point == "meta" || c.Point == "zkerror" {
 			cl.KillConns("rs1:16020")
 		}
 		synctest.Wait()
@@ -218,8 +234,10 @@ func c19RunInBubble(c c19Case) (out Outcome) {
 	switch c.Point {
 	case "backoff":
 		time.Sleep(time.Duration(100+c.ReleaseAfterMS) * time.Millisecond)
-	case "dialrefused":
+	case "dialrefused", "zkerror":
 		time.Sleep(60 * time.Millisecond)
+	case "multistop":
+		time.Sleep(time.Second)
 	}
 	if c.Point == "dial" {
 		// While a dial is held inside the region client's dial-once section, other
@@ -411,6 +429,18 @@ func c19RunInBubble(c c19Case) (out Outcome) {
 	stopped = true
 	cl.Stop()
 	out.NonTrivial = inFlight > 0
+	if c.Point == "multistop" {
+		cl.Lock()
+		left := 0
+		for _, r := range cl.Regions {
+			left += len(r.MultiExc)
+		}
+		cl.Unlock()
+		if left < len(cl.Regions) {
+			out.NonTrivial = true
+			out.Labels = append(out.Labels, "connection_given_up_on_a_server_exception_before_close")
+		}
+	}
 	out.Labels = append(out.Labels, "point_"+c.Point)
 	if c.Twice != "" {
 		out.Labels = append(out.Labels, "close_twice_"+c.Twice)
@@ -423,9 +453,9 @@ func c19RunInBubble(c c19Case) (out Outcome) {
 
 func c19Gen(t *rapid.T) c19Case {
 	var c c19Case
-	c.Point = rapid.SampledFrom([]string{"idle", "inflight", "zk", "meta", "dial", "dial", "probe", "backoff", "dialrefused"}).Draw(t, "point")
+	c.Point = rapid.SampledFrom([]string{"idle", "inflight", "zk", "meta", "dial", "dial", "probe", "backoff", "dialrefused", "zkerror", "multistop"}).Draw(t, "point")
 	c.Warm = rapid.Bool().Draw(t, "warm")
-	if c.Point == "idle" {
+	if c.Point == "idle" || c.Point == "multistop" {
 		c.Warm = true
 	}
 	c.Queue = rapid.SampledFrom([]int{1, 2, 100}).Draw(t, "queue")
@@ -467,7 +497,8 @@ func TestC19_Close(t *testing.T) {
 		"rapid, virtual time: 1..6 concurrent callers (single calls, optionally one SendBatch) over 2 regions on 2 "+
 			"servers are brought into a chosen state - idle, responses held (in flight), ZooKeeper lookup held, meta scan "+
 			"held, dialer entered and held (before/during dial), region probe held, retry back-off, dial refused "+
-			"repeatedly - with or without previously established connections, optionally with a scanner left open mid-region "+
+			"repeatedly, ZooKeeper answering every lookup with an error (before and after Close), a connection given up because a multi-response "+
+			"carried a server-stopped exception (and replaced by another one) - with or without previously established connections, optionally with a scanner left open mid-region "+
 			"(with or without a lease renewer); then Close runs (once, twice, or twice "+
 			"concurrently) and 0/1/10/500 virtual ms later the awaited event happens (the dial completes, ZooKeeper "+
 			"answers...). Oracle: Close takes zero virtual time; every in-flight call returns within 100 virtual ms "+
